@@ -71,6 +71,17 @@ def run(tier, seed):
     fb = {"std": [{"reading": "くるま", "stem": "車", "speech": {"Noun": "Common"}}], "anc": [{"reading": "で", "stem": "で", "speech": {"Particle": "Case"}}], "tankan": []}
     items.insert(0, (fb, [{"kind": "register", "wkind": "Guess", "reading": "い", "word": "い"}, {"kind": "convert", "input": "く", "context": "Normal", "probe": "before"},
                           {"kind": "restart"}, {"kind": "convert", "input": "く", "context": "Normal", "probe": "after"}]))
+    # duplicates and homophones with equal scores: the same registration twice, a word the dictionary already holds, words registered in
+    # non-sorted order - the order of tied candidates is the same after a restart (and after a second one)
+    hb = {"std": [{"reading": "はし", "stem": "橋", "speech": {"Noun": "Common"}}, {"reading": "はし", "stem": "箸", "speech": {"Noun": "Common"}},
+                  {"reading": "かんじ", "stem": "漢字", "speech": {"Noun": "Common"}}, {"reading": "かんじ", "stem": "感じ", "speech": {"Noun": "Common"}}],
+          "anc": [{"reading": "で", "stem": "で", "speech": {"Particle": "Case"}}], "tankan": []}
+    regs = [("はし", "端"), ("はし", "嘴"), ("はし", "端"), ("はし", "橋"), ("かんじ", "幹事"), ("かんじ", "漢字"), ("かんじ", "監事"), ("かんじ", "幹事"), ("はし", "愛")]
+    pq = [{"kind": k, "input": i, "context": "Normal"} for k in ("convert", "proper") for i in ("はし", "かんじ", "はしで", "かんじで")]
+    for kinds in (["CommonNoun"] * len(regs), ["ProperNoun"] * len(regs), ["CommonNoun", "ProperNoun"] * len(regs)):
+        rq = [{"kind": "register", "wkind": k, "reading": r, "word": w} for (r, w), k in zip(regs, kinds)]
+        rq += [dict(q, probe="before") for q in pq] + [{"kind": "restart"}] + [dict(q, probe="after") for q in pq] + [{"kind": "restart"}] + [dict(q, probe="after") for q in pq]
+        items.append((hb, rq))
     runs = run_histories(items, threads=12)
     nontrivial = sum(1 for hr in runs if predicate(res, hr))
     n_model = model_histories(res, PROP, runs)
